@@ -175,4 +175,10 @@ Act_C06 == [][(stim'.op = "recv" /\ Handles(stim'.p.t, conn[stim'.a].ps) /\ stim
 Act_C07 == [][(stim'.op \in {"subscribe", "unsubscribe"} /\ SubCapable /\ conn[stim'.a].ps = "connected") =>
                  LET a == stim'.a  w == IF stim'.op = "subscribe" THEN sess[a].sub ELSE sess[a].unsub IN
                  (Len(w) >= conn[a].window) <=> (\E i \in 1..Len(fx') : fx'[i].k = "fire" /\ fx'[i].ok = 0 /\ fx'[i].exc = "MQTTWindowError")]_vars
+\* C19: a step on one address leaves everything of every other address unchanged and its effects name only that address
+StepAddr == IF stim'.op = "fire" THEN stim'.tm.a ELSE IF "a" \in DOMAIN stim' THEN stim'.a ELSE ""
+Act_C19 == [][\A a \in Addr : (StepAddr # "" /\ StepAddr # a) =>
+                 /\ sess'[a] = sess[a] /\ conn'[a] = conn[a]
+                 /\ {t \in timers' : t.a = a} = {t \in timers : t.a = a}
+                 /\ \A i \in 1..Len(fx') : "a" \in DOMAIN fx'[i] => fx'[i].a # a]_vars
 =============================================================================
